@@ -58,7 +58,7 @@ fn nm(n: &Name) -> String {
 }
 
 pub trait ReadD {
-    fn run<D: RData>(&mut self) -> Result<D>;
+    fn run<D: RData + 'static>(&mut self) -> Result<D>;
 }
 
 pub fn typed<R: ReadD>(ty: u16, r: &mut R) -> Option<Result<String>> {
@@ -105,13 +105,13 @@ pub fn typed<R: ReadD>(ty: u16, r: &mut R) -> Option<Result<String>> {
 
 struct Seq<'r, 'a>(&'r mut MessageReader<'a>, &'r RecordMarker);
 impl ReadD for Seq<'_, '_> {
-    fn run<D: RData>(&mut self) -> Result<D> {
+    fn run<D: RData + 'static>(&mut self) -> Result<D> {
         self.0.record_data::<D>(self.1)
     }
 }
 struct At<'r, 'a>(&'r MessageReader<'a>, &'r RecordMarker);
 impl ReadD for At<'_, '_> {
-    fn run<D: RData>(&mut self) -> Result<D> {
+    fn run<D: RData + 'static>(&mut self) -> Result<D> {
         self.0.record_data_at::<D>(self.1)
     }
 }
@@ -143,10 +143,12 @@ fn r2s<T>(r: Result<T>, f: impl FnOnce(T) -> String) -> String {
 
 pub fn op_script(a: &[&str]) -> String {
     let n: usize = a[0].parse().unwrap();
-    let msgs: Vec<Vec<u8>> = (0..n).map(|i| unhex(a[1 + i])).collect();
+    let gbufs: Vec<crate::guard::GuardBuf> =
+        (0..n).map(|i| crate::guard::GuardBuf::new(&unhex(a[1 + i]))).collect();
+    let msgs: Vec<&[u8]> = gbufs.iter().map(|g| g.as_slice()).collect();
     let calls = a.get(1 + n).copied().unwrap_or("");
     let mut readers: Vec<Option<MessageReader>> =
-        msgs.iter().map(|m| MessageReader::new(m).ok()).collect();
+        msgs.iter().map(|m| MessageReader::new(*m).ok()).collect();
     let mut markers: Vec<RecordMarker> = Vec::new();
     let mut nrefs: Vec<(usize, NameRef)> = Vec::new();
     let mut out: Vec<String> = Vec::new();
@@ -168,9 +170,15 @@ pub fn op_script(a: &[&str]) -> String {
         }
         let p: Vec<&str> = rest.split(':').collect();
         let nmark = markers.len();
+        let nnref = nrefs.len();
+        let is_nref_op = matches!(p[0], "nreq" | "nrname" | "nrlabels");
         let num = |i: usize| -> usize {
             if p[i] == "L" {
-                nmark.wrapping_sub(1)
+                if is_nref_op {
+                    nnref.wrapping_sub(1)
+                } else {
+                    nmark.wrapping_sub(1)
+                }
             } else {
                 p[i].parse().unwrap()
             }
@@ -180,7 +188,7 @@ pub fn op_script(a: &[&str]) -> String {
             prev_ok = true;
             continue;
         }
-        let msg: &[u8] = &msgs[ri];
+        let msg: &[u8] = msgs[ri];
         let res = catch_unwind(AssertUnwindSafe(|| -> String {
             let r = readers[ri].as_mut().unwrap();
             match p[0] {
@@ -268,7 +276,7 @@ pub fn op_script(a: &[&str]) -> String {
                     }
                     Err(e) => format!("err:{}", err(&e)),
                 },
-                "skipd" | "bytes" | "opt" | "bytesat" | "nrefat" => {
+                "skipd" | "bytes" | "opt" | "optorskip" | "bytesat" | "nrefat" => {
                     let k = num(1);
                     if k >= markers.len() {
                         return "nosuch".into();
@@ -278,6 +286,13 @@ pub fn op_script(a: &[&str]) -> String {
                         "skipd" => r2s(r.skip_record_data(&mk), |_| String::new()),
                         "bytes" => r2s(r.record_data_bytes(&mk), |b| fmt_slice(msg, b)),
                         "opt" => r2s(r.opt_record(&mk), |o| fmt_opt(&o)),
+                        "optorskip" => {
+                            if mk.rtype() == rsdns::records::Type::OPT {
+                                r2s(r.opt_record(&mk), |o| fmt_opt(&o))
+                            } else {
+                                r2s(r.skip_record_data(&mk), |_| String::new())
+                            }
+                        }
                         "bytesat" => r2s(r.record_data_bytes_at(&mk), |b| fmt_slice(msg, b)),
                         _ => {
                             let nr = r.name_ref_at(&mk);
@@ -369,4 +384,175 @@ pub fn op_script(a: &[&str]) -> String {
         }
     }
     out.join(";")
+}
+
+// ---- iterator API and record-set extraction ----
+use rsdns::message::reader::MessageIterator;
+use rsdns::records::data::RecordData;
+use rsdns::records::RecordSet;
+
+fn fmt_record_data(d: &RecordData) -> String {
+    match d {
+        RecordData::A(d) => format!("D(A,{})", v4(&d.address)),
+        RecordData::Aaaa(d) => format!("D(Aaaa,{})", v6(&d.address)),
+        RecordData::Ns(d) => format!("D(Name,2,{})", nm(&d.nsdname)),
+        RecordData::Md(d) => format!("D(Name,3,{})", nm(&d.madname)),
+        RecordData::Mf(d) => format!("D(Name,4,{})", nm(&d.madname)),
+        RecordData::Cname(d) => format!("D(Name,5,{})", nm(&d.cname)),
+        RecordData::Mb(d) => format!("D(Name,7,{})", nm(&d.madname)),
+        RecordData::Mg(d) => format!("D(Name,8,{})", nm(&d.mgmname)),
+        RecordData::Mr(d) => format!("D(Name,9,{})", nm(&d.newname)),
+        RecordData::Ptr(d) => format!("D(Name,12,{})", nm(&d.ptrdname)),
+        RecordData::Hinfo(d) => format!("D(Hinfo,{},{})", hex(&d.cpu), hex(&d.os)),
+        RecordData::Wks(d) => format!("D(Wks,{},{},{})", v4(&d.address), d.protocol, hex(&d.bitmap)),
+        RecordData::Minfo(d) => format!("D(Minfo,{},{})", nm(&d.rmailbx), nm(&d.emailbx)),
+        RecordData::Mx(d) => format!("D(Mx,{},{})", d.preference, nm(&d.exchange)),
+        RecordData::Null(d) => format!("D(Null,{})", hex(&d.anything)),
+        RecordData::Soa(d) => format!(
+            "D(Soa,{},{},{},{},{},{},{})",
+            nm(&d.mname),
+            nm(&d.rname),
+            d.serial,
+            d.refresh,
+            d.retry,
+            d.expire,
+            d.minimum
+        ),
+        RecordData::Txt(d) => format!("D(Txt,{})", hex(&d.text)),
+    }
+}
+
+fn fmt_q(q: &rsdns::message::Question) -> String {
+    format!(
+        "Q({},{},{})",
+        hex(q.qname.as_str().as_bytes()),
+        q.qtype.value(),
+        q.qclass.value()
+    )
+}
+
+pub fn op_iter(msg: &[u8]) -> String {
+    let mi = match MessageIterator::new(msg) {
+        Ok(mi) => mi,
+        Err(e) => return format!("new=err:{}", err(&e)),
+    };
+    let h = mi.header();
+    let mut s = format!(
+        "new=ok:H({},{},{},{},{},{})",
+        h.id,
+        u16::from(h.flags),
+        h.qd_count,
+        h.an_count,
+        h.ns_count,
+        h.ar_count
+    );
+    s.push_str(&format!(" Q={}", r2s(mi.question(), |q| fmt_q(&q))));
+    s.push_str(" QS=[");
+    let mut end = "end".to_string();
+    for q in mi.questions() {
+        match q {
+            Ok(q) => s.push_str(&format!("{},", fmt_q(&q))),
+            Err(e) => {
+                end = format!("err:{}", err(&e));
+                break;
+            }
+        }
+    }
+    s.push_str(&format!("]{}", end));
+    s.push_str(" RS=[");
+    let mut end = "end".to_string();
+    for r in mi.records() {
+        match r {
+            Ok((sec, rr)) => s.push_str(&format!(
+                "R({},{},{},{},{},{}),",
+                sec as usize,
+                hex(rr.name.as_str().as_bytes()),
+                rr.rclass.value(),
+                rr.rtype.value(),
+                rr.ttl,
+                fmt_record_data(&rr.rdata)
+            )),
+            Err(e) => {
+                end = format!("err:{}", err(&e));
+                break;
+            }
+        }
+    }
+    s.push_str(&format!("]{}", end));
+    s
+}
+
+struct FromMsg<'a>(&'a [u8], Option<String>);
+impl ReadD for FromMsg<'_> {
+    fn run<D: RData + 'static>(&mut self) -> Result<D> {
+        // abuse of the ReadD dispatcher: compute the whole record set for D, remember its text,
+        // and return an error value that the caller ignores
+        let r = RecordSet::<D>::from_msg(self.0);
+        self.1 = Some(match r {
+            Ok(rs) => {
+                let mut items = Vec::new();
+                for d in rs.rdata.iter() {
+                    items.push(fmt_any(d));
+                }
+                format!(
+                    "ok:RS({},{},{},[{}])",
+                    hex(rs.name.as_str().as_bytes()),
+                    rs.rclass.value(),
+                    rs.ttl,
+                    items.join(",")
+                )
+            }
+            Err(e) => format!("err:{}", err(&e)),
+        });
+        Err(rsdns::Error::NoAnswer)
+    }
+}
+
+// format any RData through Debug-free downcasting: re-dispatch on RTYPE
+fn fmt_any<D: RData + 'static>(d: &D) -> String {
+    use std::any::Any;
+    let a: &dyn Any = d as &dyn Any;
+    macro_rules! t {
+        ($T:ty, $f:expr) => {
+            if let Some(x) = a.downcast_ref::<$T>() {
+                let f: fn(&$T) -> String = $f;
+                return f(x);
+            }
+        };
+    }
+    t!(A, |d| format!("D(A,{})", v4(&d.address)));
+    t!(Aaaa, |d| format!("D(Aaaa,{})", v6(&d.address)));
+    t!(Ns, |d| format!("D(Name,2,{})", nm(&d.nsdname)));
+    t!(Md, |d| format!("D(Name,3,{})", nm(&d.madname)));
+    t!(Mf, |d| format!("D(Name,4,{})", nm(&d.madname)));
+    t!(Cname, |d| format!("D(Name,5,{})", nm(&d.cname)));
+    t!(Mb, |d| format!("D(Name,7,{})", nm(&d.madname)));
+    t!(Mg, |d| format!("D(Name,8,{})", nm(&d.mgmname)));
+    t!(Mr, |d| format!("D(Name,9,{})", nm(&d.newname)));
+    t!(Ptr, |d| format!("D(Name,12,{})", nm(&d.ptrdname)));
+    t!(Hinfo, |d| format!("D(Hinfo,{},{})", hex(&d.cpu), hex(&d.os)));
+    t!(Wks, |d| format!("D(Wks,{},{},{})", v4(&d.address), d.protocol, hex(&d.bitmap)));
+    t!(Minfo, |d| format!("D(Minfo,{},{})", nm(&d.rmailbx), nm(&d.emailbx)));
+    t!(Mx, |d| format!("D(Mx,{},{})", d.preference, nm(&d.exchange)));
+    t!(Null, |d| format!("D(Null,{})", hex(&d.anything)));
+    t!(Soa, |d| format!(
+        "D(Soa,{},{},{},{},{},{},{})",
+        nm(&d.mname),
+        nm(&d.rname),
+        d.serial,
+        d.refresh,
+        d.retry,
+        d.expire,
+        d.minimum
+    ));
+    t!(Txt, |d| format!("D(Txt,{})", hex(&d.text)));
+    "D(?)".into()
+}
+
+pub fn op_rrset(ty: u16, msg: &[u8]) -> String {
+    let mut f = FromMsg(msg, None);
+    match typed(ty, &mut f) {
+        None => "BADTYPE".into(),
+        Some(_) => f.1.unwrap_or_else(|| "?".into()),
+    }
 }
